@@ -24,6 +24,7 @@ func checkC05(c *Ctx) {
 	// every derivation is resolved by the registry: a shortcut that hands back the receiver (or any scope
 	// not looked up by key) merges identities that differ (shared with C07 O4)
 	c.checkDerivationThroughRegistry("O1 through-registry")
+	c.checkSubscopeSource("O1 scope-by-canonical-key")
 	// the tags a scope carries are the tags its key was built from: right-most map wins in the merge
 	// exactly as in the key writer (shared with C04 O3)
 	if merge := c.fn("", "", "mergeRightTags"); merge != nil {
